@@ -788,8 +788,8 @@ def c16_oracle(op, impl):
             # rejection sampling may legitimately stop before a later failing answer is drawn; in the generated
             # scripts the failure always precedes the accepted candidate
             return ("operation produced an artefact although the random source reported failure", "%s/%s/fail-open" % (be, t[0]))
-        if "!" in answers and impl != "err crypto":
-            return ("RNG failure not reported as CryptoError: " + impl, "%s/%s/fail-kind" % (be, t[0]))
+        if "!" in answers and not impl.startswith("err"):
+            return ("RNG failure did not make the operation return an error: " + impl, "%s/%s/fail-kind" % (be, t[0]))
         if "!" not in answers and not impl.startswith("ok"):
             return ("randomised operation failed with a working random source: " + impl, "%s/%s/failed" % (be, t[0]))
     return None
